@@ -153,6 +153,22 @@ theorem search_sorted (S : Sorter) (hS : S.Correct) {root : List PortT} {str : B
   obtain ⟨out, h1, h2, h3⟩ := pathSearch_sorted S hS h.resolves hcol hfit
   exact ⟨out, h1, hview ▸ h2.map _, h3⟩
 
+/-- Why outputs are compared "as multisets within runs of equal names": two admissible
+    results of the (unstable) sort of the same list carry the same sequence of names and,
+    for every name, the same multiset of entries. -/
+theorem sort_result_unique {found l1 l2 : List Pair} (h1 : IsSortOf pairLt found l1)
+    (h2 : IsSortOf pairLt found l2) :
+    l1.map (·.1) = l2.map (·.1) ∧ ∀ k : Bytes, (l1.filter (·.1 = k)).Perm (l2.filter (·.1 = k)) := by
+  have hp : l1.Perm l2 := h1.1.trans h2.1.symm
+  refine ⟨?_, fun k => hp.filter _⟩
+  have hs : ∀ l : List Pair, l.Pairwise (fun a b => pairLt b a = false) →
+      (l.map (·.1)).Pairwise (fun a b => strLt b a = false) := by
+    intro l hl
+    rw [List.pairwise_map]
+    exact hl
+  exact List.Perm.eq_of_pairwise (le := fun a b => strLt b a = false)
+    (fun a b _ _ hab hba => strLt_antisymm a b hba hab) (hs l1 h1.2) (hs l2 h2.2) (hp.map _)
+
 /-- **search_unique_prefix**: with the option `sorted_and_unique_prefix` the result is the
     sorted list without every name that lies below a returned `name/` entry (`below`:
     some entry ending in `/` is a proper prefix of it); duplicates of a `name/` entry
